@@ -1,0 +1,16 @@
+//go:build verif
+
+package engine
+
+// Verification hooks (build tag `verif`): a step observer for the VM loop.
+
+// VerifStepHook, when non-nil, is called once per executed VM instruction with
+// (pc, file offset, backtrack depth, loop depth, call depth). It may panic to
+// abort a run that exceeded a step budget.
+var VerifStepHook func(pc int, pos int, nbt int, nloops int, ncalls int)
+
+func verifStep(s *SearchEngineState) {
+	if VerifStepHook != nil {
+		VerifStepHook(s.programCounter, s.currentFileOffset, int(s.backtrack.Size()), int(s.loopStack.Size()), int(s.callStack.Size()))
+	}
+}
